@@ -349,6 +349,22 @@ func TestByteRune(t *testing.T) {
 			bad("ValidPrintRune", r, got, want)
 		}
 	}
+	// every low byte under a set of high parts over the whole int32 range (truncation to a byte must not decide)
+	for _, hi := range []int64{-1 << 31, -1 << 24, -1 << 16, -1 << 8, 1 << 8, 1 << 16, 1 << 21, 1 << 24, 1<<31 - 256} {
+		for lo := int64(0); lo < 256; lo++ {
+			r := hi + lo
+			n++
+			if got, want := ascii.ValidPrintRune(rune(r)), r >= 0x20 && r <= 0x7e; got != want {
+				bad("ValidPrintRune", r, got, want)
+			}
+			if r >= 0 {
+				n++
+				if got, want := ascii.ValidRune(rune(r)), r < 0x80; got != want {
+					bad("ValidRune", r, got, want)
+				}
+			}
+		}
+	}
 	evid.Eval(n)
 	evid.Label("byte-rune-domain")
 	evid.Enumerated("ByteRune", 1, 1)
